@@ -411,6 +411,7 @@ func doubleAsteriskDefineProcess(
 
 func asteriskDefineProcess(
 	m *MethodEvaluator,
+	methodT *base.T,
 	class string,
 	definedArgNames []string,
 	defineArgIdx int,
@@ -423,22 +424,23 @@ func asteriskDefineProcess(
 
 	// the rest parameter of a configured method keeps its declaration: only a
 	// user-defined method learns its parameter type from the call
-	declaredT :=
-		base.GetValueT(
-			m.evaluatedObjectT.GetFrame(),
-			class,
-			m.method,
-			definedArgNames[defineArgIdx][1:],
-			isStatic,
-		)
+	declaredT := getDefinedArgT(m, methodT, class, definedArgNames[defineArgIdx][1:])
 
 	isConfigured := declaredT.IsBuiltin()
 
+	// parameters after the rest parameter that must still get an argument: a
+	// block parameter is not one of them, a block is not a positional argument
 	mustBindCt := 0
 	for _, name := range definedArgNames[defineArgIdx+1:] {
-		if !base.IsKeySuffix(name) {
-			mustBindCt++
+		if base.IsKeySuffix(name) {
+			continue
 		}
+
+		if getDefinedArgT(m, methodT, class, name).IsBlockType() {
+			continue
+		}
+
+		mustBindCt++
 	}
 
 	var positionalArgTs []*base.T
@@ -593,6 +595,7 @@ func checkAndPropagateArgs(
 			defineArgIdx, argIdx =
 				asteriskDefineProcess(
 					m,
+					methodT,
 					class,
 					sortedDfineArgs,
 					defineArgIdx,
